@@ -85,7 +85,30 @@ def rule_state_before_callout(rep: Report, m: Fn, need_clear: bool, need_excepti
                "receives the previous value")
 
 
+def field_aliases(m: Fn):
+    """local name -> 'self.<field>' for locals that are plain copies of a field (`ex = self.exception`)."""
+    out = {}
+    for s in sites(m):
+        n = s.node
+        if isinstance(n, (ast.Assign, ast.AnnAssign)) and n.value is not None:
+            t = n.targets[0] if isinstance(n, ast.Assign) else n.target
+            if isinstance(t, ast.Name) and isinstance(n.value, ast.Attribute) and dotted(n.value.value) == "self":
+                out[t.id] = u(n.value)
+    return out
+
+
+def canon(m: Fn, e: ast.AST) -> str:
+    al = field_aliases(m)
+    if isinstance(e, ast.Name) and e.id in al:
+        return al[e.id]
+    return u(e)
+
+
 def subscribe_paths(m: Fn, obs: str):
+    al = field_aliases(m)
+    wrappers = {u(s.node.targets[0]) for s in sites(m) if isinstance(s.node, ast.Assign) and isinstance(s.node.value, ast.Call)
+                and call_name(s.node.value) == "ScheduledObserver"}
+
     def ev(n: ast.AST) -> Optional[str]:
         if isinstance(n, ast.Call):
             d = dotted(n.func)
@@ -93,14 +116,26 @@ def subscribe_paths(m: Fn, obs: str):
                 return "CHECK"
             if d == "self.observers.append":
                 return "APPEND"
-            if isinstance(n.func, ast.Attribute) and n.func.attr in KINDS and dotted(n.func.value) in (obs, "so"):
-                return {"on_next": "NEXT", "on_error": "ERR", "on_completed": "COMPL"}[n.func.attr] + ":" + ",".join(u(a) for a in n.args)
+            if isinstance(n.func, ast.Attribute) and n.func.attr in KINDS and dotted(n.func.value) in ({obs} | wrappers):
+                return {"on_next": "NEXT", "on_error": "ERR", "on_completed": "COMPL"}[n.func.attr] + ":" + \
+                    ",".join(al.get(a.id, u(a)) if isinstance(a, ast.Name) else u(a) for a in n.args)
             if d in ("so.ensure_active",):
                 return "ACTIVATE"
             if d in ("self._trim",):
                 return "TRIM"
         return None
     return paths(m, ev)
+
+
+def decided_field(m: Fn, p: Path, field: str):
+    """Truth value the path decided for `self.<field>` (directly, through a local copy, or as `is (not) None`)."""
+    names = [f"self.{field}"] + [k for k, v in field_aliases(m).items() if v == f"self.{field}"]
+    for nm in names:
+        for form, flip in ((nm, False), (f"{nm} is not None", False), (f"{nm} is None", True)):
+            d = p.decided(form)
+            if d is not None:
+                return (not d) if flip else d
+    return None
 
 
 def ret_kind(p: Path) -> str:
